@@ -1,0 +1,81 @@
+//go:build verif
+// +build verif
+
+package jsonata
+
+// Accessors for the verification harness in /verif (build tag "verif").
+// This file only adds code; nothing here is compiled into normal builds.
+
+import (
+	"reflect"
+	"sort"
+
+	"github.com/blues/jsonata-go/jparse"
+)
+
+// VerifParam describes one parameter of a built-in function.
+type VerifParam struct {
+	Type     string
+	IsOpt    bool
+	OptType  string
+	IsVar    bool
+	VarTypes []string
+}
+
+// VerifBuiltin describes one entry of baseEnv.
+type VerifBuiltin struct {
+	Name     string
+	Params   []VerifParam
+	Variadic bool
+	Undef    func([]reflect.Value) bool // nil when there is no handler
+	Ctx      func([]reflect.Value) bool
+}
+
+// VerifBaseEnv returns the built-in function table, sorted by name.
+func VerifBaseEnv() []VerifBuiltin {
+	var out []VerifBuiltin
+	for name, v := range baseEnv.symbols {
+		c, ok := v.Interface().(*goCallable)
+		if !ok {
+			continue
+		}
+		b := VerifBuiltin{Name: name, Variadic: c.isVariadic}
+		for _, p := range c.params {
+			vp := VerifParam{Type: p.t.String(), IsOpt: p.isOpt, IsVar: p.isVar}
+			if p.isOpt {
+				vp.OptType = p.optType.t.String()
+			}
+			for _, t := range p.varTypes {
+				vp.VarTypes = append(vp.VarTypes, t.t.String())
+			}
+			b.Params = append(b.Params, vp)
+		}
+		if c.undefinedHandler != nil {
+			b.Undef = c.undefinedHandler
+		}
+		if c.contextHandler != nil {
+			b.Ctx = c.contextHandler
+		}
+		out = append(out, b)
+	}
+	sort.Slice(out, func(i, j int) bool { return out[i].Name < out[j].Name })
+	return out
+}
+
+// VerifErrTypes returns every ErrType with its message template.
+func VerifErrTypes() map[ErrType]string {
+	out := map[ErrType]string{}
+	for i := ErrNonIntegerLHS; i <= ErrSortMismatch; i++ {
+		out[i] = errmsgs[i]
+	}
+	return out
+}
+
+// VerifMaxRangeItems returns the range operator's size limit.
+func VerifMaxRangeItems() int { return maxRangeItems }
+
+// VerifRoot returns the root of a compiled expression's syntax tree.
+func VerifRoot(e *Expr) jparse.Node { return e.node }
+
+// VerifRegexCallable builds the callable that a regex literal evaluates to.
+func VerifRegexCallable(n *jparse.RegexNode) interface{} { return newRegexCallable(n.Value) }
